@@ -75,19 +75,28 @@ namespace embedded_pairing::bls12_381 {
                         u -= (1 << (window + 1));
                     }
 
+                    /*
+                     * Halve c first and then apply the halved digit:
+                     * (c - u) / 2 == (c >> 1) - (u >> 1) for u > 0, and
+                     * (c + |u|) / 2 == (c >> 1) + (|u| >> 1) + 1 for u < 0
+                     * (c and u are odd). Adding |u| before halving would
+                     * overflow c, and drop the carry, when c is within
+                     * 2^window of 2^bits.
+                     */
+                    c.template shift_right_in_word<1>(c);
                     if (u > 0) {
-                        a.bytes[0] = (uint8_t) u;
+                        a.bytes[0] = (uint8_t) (u >> 1);
                         c.subtract(c, a);
                     } else {
-                        a.bytes[0] = (uint8_t) (-u);
+                        a.bytes[0] = (uint8_t) (((-u) >> 1) + 1);
                         c.add(c, a);
                     }
                 } else {
                     u = 0;
+                    c.template shift_right_in_word<1>(c);
                 }
 
                 wnaf[i++] = (int8_t) u;
-                c.template shift_right_in_word<1>(c);
             }
             wnaf_size = i;
         }
